@@ -205,14 +205,14 @@ def eval_chunk(args):
     if not G.desc_equal_modulo_ssets_order(G.normalise(d), desc):
       summ["construct_bad"].append((name, "readback differs from the intended graph"))
       continue
-    impl.append((name, desc, qs, ans, mode))
+    impl.append((name, desc, qs, ans, mode, d))
     lines.append(G.model_line(desc, qs + [("W",)]))
   pr = subprocess.run([exe], input="\n".join(lines) + "\n", capture_output=True, text=True)
   if pr.returncode != 0:
     summ["model_fail"] = pr.stderr[-1500:]
     return summ
   mlines = pr.stdout.split("\n")
-  for (name, desc, qs, ans, mode), ml in zip(impl, mlines):
+  for (name, desc, qs, ans, mode, d), ml in zip(impl, mlines):
     mo = ml.split(" ") if ml else []
     flags = mo[-1] if mo else ""
     mo = mo[:-1]
@@ -237,7 +237,8 @@ def eval_chunk(args):
         summ["mismatch"].append(None)
     for fp, what, detail in classify(desc, qs, ans, mo, mode):
       if sum(1 for v in summ["violations"] if v and v[0] == fp) < 3:
-        summ["violations"].append((fp, what, {"desc": desc, "queries": qs, "mode": mode,
+        summ["violations"].append((fp, what, {"desc": G.normalise(d) if mode == "staged" else desc,
+                                              "queries": qs, "mode": mode,
                                               "detail": detail, "case": name}))
       else:
         summ["violations"].append((fp, None, None))
